@@ -29,6 +29,36 @@ def main(argv=None):
     return run_one(args.prop, args, seed)
 
 
+RULE_SECONDS = 120
+
+
+class _time_limit:
+    """A rule that does not terminate on an unforeseen shape of the source
+    is an analysis error, not a hang."""
+
+    def __init__(self, seconds, name):
+        self.seconds, self.name = seconds, name
+
+    def _fire(self, *a):
+        raise frontend.AnalysisError(
+            f'rule did not finish within {self.seconds}s')
+
+    def __enter__(self):
+        import signal
+        try:
+            self.old = signal.signal(signal.SIGALRM, self._fire)
+            signal.setitimer(signal.ITIMER_REAL, self.seconds)
+        except ValueError:      # not in the main thread
+            self.old = None
+
+    def __exit__(self, *a):
+        import signal
+        if self.old is not None:
+            signal.setitimer(signal.ITIMER_REAL, 0)
+            signal.signal(signal.SIGALRM, self.old)
+        return False
+
+
 def run_one(pid, args, seed):
     try:
         meta = props.PROPS[pid]
@@ -45,11 +75,17 @@ def run_one(pid, args, seed):
             name = getattr(rule, 'NAME', rule.__name__)
             result.rules_run.append(name)
             try:
-                rule(program, result)
+                with _time_limit(RULE_SECONDS, name):
+                    rule(program, result)
             except frontend.AnalysisError as e:
                 # one rule out of reach must not hide what the other
                 # rules found
                 errors.append(f'{name}: {e}')
+            except Exception as e:
+                tb = traceback.extract_tb(e.__traceback__)[-1]
+                errors.append(
+                    f'{name}: internal error {type(e).__name__}: {e} '
+                    f'({os.path.basename(tb.filename)}:{tb.lineno})')
         result.counters['analysis_errors'] = errors
         if only is not None:
             result.findings = [
